@@ -118,8 +118,149 @@ DxTry(ly, nw, NT, g, restart) ==
            ELSE DxTry(gr.ly, nw, NT, g, restart + 1)
 DxLink(ly, nw, NT, g) == DxTry(ly, nw, NT, g, 0)
 
+\* ---------------------------------------------------------------- e2fsck/rehash.c: what `e2fsck -D` writes
+(* e2fsck_rehash_dir() reads every entry of a directory, sorts them and writes the directory anew:
+     - "compress" (linear result) when the filesystem has no dir_index, the directory has fewer than two blocks, or the
+       minimal record lengths of its names (without "." and "..") sum to less than blocksize - 24;  the entries are then
+       ".", "..", the rest by inode number, packed with a slack of one minimal record (12 bytes);
+     - otherwise an htree: block 0 is the root, the names sorted by hash fill the leaf blocks 1..nl (copy_dir_entries:
+       a block is closed when the next record does not fit or when less than 20% of it is left), and calculate_tree()
+       writes the index: ONE level when nl <= root limit, TWO when nl <= root limit * node limit, else THREE; interior
+       nodes follow the leaves, each filled up to its limit before the next one is begun.
+   The limits are the format's: root (bs - 32 - t) / 8, interior node (bs - 8 - t) / 8, t = 8 with metadata_csum.
+   g carries them as g.rlim / g.nlim so that the model checker can scale them down.                                  *)
+DxTail(g) == IF g.tail = 12 THEN 8 ELSE 0
+RootLimit(g) == (g.bs - 32 - DxTail(g)) \div 8
+NodeLimit(g) == (g.bs - 8 - DxTail(g)) \div 8
+SlackPct == 20                                          \* e2fsck.conf [options] indexed_dir_slack_percentage, default
+RebuildSlack(g, compress) == IF compress THEN 12
+                             ELSE LET x == ((g.bs - g.tail) * SlackPct) \div 100 IN IF x < 12 THEN 12 ELSE x
+Ceil(a, c) == (a + c - 1) \div c
+\* names of one length that copy_dir_entries puts into one leaf block
+PerLeaf(len, g) == LET cap == g.bs - g.tail  rl == RL(len)  sl == RebuildSlack(g, FALSE) IN
+                   CHOOSE j \in 1..(cap \div rl) : /\ (cap - j * rl < sl \/ (j + 1) * rl > cap)
+                                                   /\ \A i \in 1..(j - 1) : ~(cap - i * rl < sl \/ (i + 1) * rl > cap)
+
+\* calculate_tree(): nl leaf blocks (logical blocks 1..nl), H[i] = <<hash >> 1, continued>> of the first name of leaf i
+DxEnt(H, i, first, blk) == IF first THEN <<0, 0, blk>> ELSE <<H[i][1], H[i][2], blk>>
+TreeLevels(nl, g) == IF nl <= g.rlim THEN 0 ELSE IF nl <= g.rlim * g.nlim THEN 1 ELSE 2
+CalcTree(nl, H, g) ==
+   LET c1 == g.rlim  c2 == g.nlim
+       nn == Ceil(nl, c2)                                \* index nodes that point at leaves
+       Low(m) == [limit |-> c2, e |-> [p \in 1..(IF m < nn THEN c2 ELSE nl - (nn - 1) * c2) |->
+                                          LET i == (m - 1) * c2 + p IN DxEnt(H, i, p = 1, i)]]
+   IN IF TreeLevels(nl, g) = 0
+      THEN [lv |-> 0, nodes |-> (0 :> [limit |-> c1, e |-> [i \in 1..nl |-> DxEnt(H, i, i = 1, i)]])]
+      ELSE IF TreeLevels(nl, g) = 1
+      THEN [lv |-> 1, nodes |-> [b \in {0} \cup {nl + m : m \in 1..nn} |->
+                                   IF b = 0 THEN [limit |-> c1, e |-> [m \in 1..nn |-> DxEnt(H, (m - 1) * c2 + 1, m = 1, nl + m)]]
+                                   ELSE Low(b - nl)]]
+      ELSE \* three levels: every second-level node is written right before its first child
+           LET np == Ceil(nn, c2)
+               Blk1(p) == nl + (p - 1) * (c2 + 1) + 1
+               Blk2(m) == nl + m + Ceil(m, c2)
+               Mid(p) == [limit |-> c2, e |-> [q \in 1..(IF p < np THEN c2 ELSE nn - (np - 1) * c2) |->
+                                                 LET m == (p - 1) * c2 + q IN DxEnt(H, (m - 1) * c2 + 1, q = 1, Blk2(m))]]
+           IN [lv |-> 2, nodes |-> [b \in {0} \cup {Blk1(p) : p \in 1..np} \cup {Blk2(m) : m \in 1..nn} |->
+                                      IF b = 0 THEN [limit |-> c1, e |-> [p \in 1..np |-> DxEnt(H, (p - 1) * c2 * c2 + 1, p = 1, Blk1(p))]]
+                                      ELSE IF \E p \in 1..np : Blk1(p) = b THEN Mid(CHOOSE p \in 1..np : Blk1(p) = b)
+                                      ELSE Low(CHOOSE m \in 1..nn : Blk2(m) = b)]]
+
+\* a block as copy_dir_entries leaves it: used slots only, minimal records, the last one stretched to the end, and the
+\* block was not closed before its last record (the room left after every earlier record was at least the slack)
+MinSum(b) == LET F[i \in 0..Len(b)] == IF i = 0 THEN 0 ELSE F[i - 1] + RL(b[i][2]) IN F
+PackedBlock(b, cap, sl) ==
+   LET n == Len(b)  P == MinSum(b) IN
+   /\ n >= 1
+   /\ \A k \in 1..n : b[k][1] # 0 /\ b[k][2] >= 1
+   /\ \A k \in 1..(n - 1) : b[k][3] = RL(b[k][2]) /\ cap - P[k] >= sl
+   /\ b[n][3] = cap - P[n - 1] /\ P[n] <= cap
+\* why block b was closed before nxt (the first slot of the following block) was written
+ClosedBefore(b, nxt, cap, sl) == LET left == cap - MinSum(b)[Len(b)] IN left < sl \/ RL(nxt[2]) > left
+HashOf(e, NT) == NT[e[5]][2]
+
+\* ly is what e2fsck -D writes for an indexed directory `self` (parent `parent`); extra = blocks of lost+found kept beyond the rebuilt ones
+IsRebuiltDx(ly, self, parent, ftd, NT, g, extra) ==
+   LET nb == Len(ly.b) - extra
+       nl == nb - Cardinality(DOMAIN ly.dx.nodes)
+       cap == g.bs - g.tail
+       sl == RebuildSlack(g, FALSE)
+       Lf(j) == ly.b[j + 1]
+       H == [j \in 1..nl |-> <<HashOf(Lf(j)[1], NT),
+                               IF j > 1 /\ HashOf(Lf(j - 1)[Len(Lf(j - 1))], NT) = HashOf(Lf(j)[1], NT) THEN 1 ELSE 0>>]
+   IN /\ ly.dx # NoDx /\ ~ly.inl /\ nl >= 1
+      /\ ly.b[1] = <<Slot(self, 1, 12, ftd, -1), Slot(parent, 2, g.bs - 12, ftd, -2)>>
+      /\ \A j \in 1..nl : /\ PackedBlock(Lf(j), cap, sl)
+                          /\ \A k \in 1..Len(Lf(j)) : Lf(j)[k][5] > 0
+                          /\ \A k \in 1..(Len(Lf(j)) - 1) : HashOf(Lf(j)[k], NT) <= HashOf(Lf(j)[k + 1], NT)
+      /\ \A j \in 1..(nl - 1) : /\ ClosedBefore(Lf(j), Lf(j + 1)[1], cap, sl)
+                                /\ HashOf(Lf(j)[Len(Lf(j))], NT) <= HashOf(Lf(j + 1)[1], NT)
+      /\ ly.dx = CalcTree(nl, H, g)
+      /\ \A k \in (DOMAIN ly.dx.nodes) \ {0} : ly.b[k + 1] = <<Empty(g.bs)>>
+      /\ \A j \in (nb + 1)..Len(ly.b) : ly.b[j] = <<Empty(cap)>>
+
+\* ly is what e2fsck -D writes for a directory it leaves (or makes) linear
+IsRebuiltLinear(ly, self, parent, ftd, g, extra) ==
+   LET nb == Len(ly.b) - extra
+       cap == g.bs - g.tail
+       InoAt(j, k) == ly.b[j][k][1]
+   IN /\ ly.dx = NoDx /\ ~ly.inl /\ nb >= 1
+      /\ \A j \in 1..nb : PackedBlock(ly.b[j], cap, 12)
+      /\ Len(ly.b[1]) >= 2
+      /\ SubSeq(ly.b[1][1], 1, 2) = <<self, 1>> /\ ly.b[1][1][4] = ftd /\ ly.b[1][1][5] = -1
+      /\ SubSeq(ly.b[1][2], 1, 2) = <<parent, 2>> /\ ly.b[1][2][4] = ftd /\ ly.b[1][2][5] = -2
+      \* the names follow in inode order
+      /\ \A j \in 1..nb : \A k \in 1..(Len(ly.b[j]) - 1) : (j > 1 \/ k > 2) => ly.b[j][k][5] > 0 /\ InoAt(j, k) <= InoAt(j, k + 1)
+      /\ \A j \in 1..nb : (j > 1 \/ Len(ly.b[j]) > 2) => ly.b[j][Len(ly.b[j])][5] > 0
+      /\ \A j \in 1..(nb - 1) : /\ ClosedBefore(ly.b[j], ly.b[j + 1][1], cap, 12)
+                                /\ (j > 1 \/ Len(ly.b[1]) > 2) => InoAt(j, Len(ly.b[j])) <= InoAt(j + 1, 1)
+      /\ \A j \in (nb + 1)..Len(ly.b) : ly.b[j] = <<Empty(cap)>>
+
+\* bytes the names of a layout need (fd.dir_size), and the decision between the two forms
+NameBytes(ly) == LET PerBlk(b) == LET F[i \in 0..Len(b)] == IF i = 0 THEN 0
+                                                          ELSE F[i - 1] + (IF b[i][1] # 0 /\ b[i][5] > 0 THEN RL(b[i][2]) ELSE 0)
+                                  IN F[Len(b)]
+                     S[j \in 0..Len(ly.b)] == IF j = 0 THEN 0 ELSE S[j - 1] + PerBlk(ly.b[j])
+                 IN S[Len(ly.b)]
+RebuildIndexes(pre, g, dirindex) == dirindex /\ ~pre.inl /\ Len(pre.b) >= 2 /\ NameBytes(pre) >= g.bs - 24
+
+\* functional form for small universes (model checking): m = the used slots in their final order
+RebuildDx(m, self, parent, ftd, NT, g) ==
+   LET n == Len(m)
+       cap == g.bs - g.tail
+       sl == RebuildSlack(g, FALSE)
+       \* <<block of entry k, bytes of that block in use once k is written (the whole block if it is closed)>>
+       Pl[k \in 0..n] == IF k = 0 THEN <<1, 0>>
+                         ELSE LET p == Pl[k - 1]  rl == RL(m[k][2])
+                                  q == IF rl > cap - p[2] THEN <<p[1] + 1, 0>> ELSE p
+                                  u == q[2] + rl
+                              IN <<q[1], IF cap - u < sl THEN cap ELSE u>>
+       nl == Pl[n][1]
+       Idx(j) == LET S == {k \in 1..n : Pl[k][1] = j} IN [r \in 1..Cardinality(S) |-> CHOOSE k \in S : Cardinality({x \in S : x < k}) = r - 1]
+       leaves == [j \in 1..nl |-> Pack(m, Idx(j), g)]
+       H == [j \in 1..nl |-> <<HashOf(leaves[j][1], NT),
+                               IF j > 1 /\ HashOf(leaves[j - 1][Len(leaves[j - 1])], NT) = HashOf(leaves[j][1], NT) THEN 1 ELSE 0>>]
+       dx == CalcTree(nl, H, g)
+       nb == 1 + nl + Cardinality(DOMAIN dx.nodes) - 1
+   IN [b |-> [j \in 1..nb |-> IF j = 1 THEN <<Slot(self, 1, 12, ftd, -1), Slot(parent, 2, g.bs - 12, ftd, -2)>>
+                              ELSE IF j <= nl + 1 THEN leaves[j - 1] ELSE <<Empty(g.bs)>>],
+       inl |-> FALSE, dx |-> dx]
+
+\* ---------------------------------------------------------------- boundary catalogue (the directory sizes the check must visit)
+(* The index changes shape where the number of leaf blocks passes the root limit (one level -> two), the node limit
+   (one interior node -> two), and root limit * node limit (two levels -> three).  For each geometry and each of these
+   limits c the rebuilt directory must be visited with c - 1, c, c + 1 and c + 2 leaf blocks.                       *)
+Geometry(bs, csum) == LET g0 == [bs |-> bs, tail |-> IF csum = 1 THEN 12 ELSE 0, cs |-> IF csum = 1 THEN 12 ELSE 0] IN
+                      [bs |-> g0.bs, tail |-> g0.tail, cs |-> g0.cs, rlim |-> RootLimit(g0), nlim |-> NodeLimit(g0), maxlv |-> 2]
+Boundaries(g) == {[kind |-> "root", at |-> g.rlim], [kind |-> "node", at |-> g.nlim], [kind |-> "level", at |-> g.rlim * g.nlim]}
+Catalogue(BSs, Csums, len) ==
+   UNION {LET g == Geometry(bs, c) IN
+          UNION {{[bs |-> bs, csum |-> c, kind |-> bd.kind, at |-> bd.at, leaves |-> bd.at + k, per |-> PerLeaf(len, g), len |-> len,
+                   levels |-> TreeLevels(bd.at + k, g), rlim |-> g.rlim, nlim |-> g.nlim]
+                  : k \in {-1, 0, 1, 2}} : bd \in Boundaries(g)} : bs \in BSs, c \in Csums}
+
 \* ---------------------------------------------------------------- invariants
-LeafIdx(ly) == {j \in 1..Len(ly.b) : ly.dx = NoDx \/ (j - 1) \notin DOMAIN ly.dx.nodes}
+LeafIdx(ly) =={j \in 1..Len(ly.b) : ly.dx = NoDx \/ (j - 1) \notin DOMAIN ly.dx.nodes}
 \* lower / upper bound tests for a name hash h against index entries (the low bit of an entry = "continued")
 AboveLo(e, h) == e[1] <= h
 BelowHi(e, h) == h < e[1] \/ (h = e[1] /\ e[2] = 1)
